@@ -17,6 +17,8 @@ INVARIANT TypeOK
 INVARIANT FirstRowIsInitial
 INVARIANT SegmentMonotone
 INVARIANT PiecesAreSteps
+INVARIANT QueriesAnsweredByContainingStep
+INVARIANT ScalarAndArrayQueriesAgree
 INVARIANT EventsAreRoots
 INVARIANT NoEventTwice
 PROPERTY EndsAtTarget
